@@ -575,6 +575,7 @@ pub fn cmd_roundtrip(args: &[String]) {
         for (li, &len) in lengths(lmax, big).iter().enumerate() {
             let ops = mk_ops(&mut rng, len);
             if (ti * 7 + li) % stride != first { continue; }
+            rep.case(&format!("{}|{}|{}|{}", cons, encv, openv, len));
             let canon = if cons == "seal" { vec![] } else { canonical(cons, &ops) };
             for (en, ef) in encs.iter() {
                 let w = match catch(|| ef(&ops)) {
@@ -643,6 +644,7 @@ pub fn cmd_tamper(args: &[String]) {
             idx += 1;
             if idx % stride != first { continue; }
             let w = canonical(cons, &ops);
+            rep.case(&format!("{}|{}|{}|{}", cons, openv, fault, len));
             // the family of corrupted presentations for this fault kind
             let mut fam: Vec<(Ops, Vec<u8>, String)> = vec![];
             let flip_range = |lo: usize, hi: usize, fam: &mut Vec<(Ops, Vec<u8>, String)>, what: &str| {
